@@ -396,7 +396,7 @@ func longConfigs(thorough bool) (cfgs []longCfg, text map[string]any) {
 	widths := []int{1, 2, 3, 8}
 	periods := []int{0, 1, 3}
 	if thorough {
-		n, nUnbounded = 4200, 600
+		n, nUnbounded = 1100, 150 // 4200/600 took 25 min for this part alone; 1100 still crosses 0xff/0x100, 999/1000 and 0x3ff/0x400
 		widths = []int{1, 2, 3, 5, 8, 16}
 		periods = []int{0, 1, 2, 3, 7}
 	}
